@@ -324,6 +324,29 @@ CLAIMED["C05"] = {
     "design_ref": "DESIGN.md §3 C05",
 }
 
+CLAIMED["C03"] = {
+    "text": "Lean theorems over the GTF importer model, for every configuration with matching id_spec / keys / "
+            "subfeature and every file in the stated domain (each line carries one gene id and optionally one "
+            "transcript id, a transcript belongs to one gene, explicit gene/transcript lines unique per id, subfeature "
+            "lines with integer coordinates agreeing on seqid/strand per transcript and gene): the rows are the input "
+            "lines in order under their keys followed by exactly the derived rows the specification lists "
+            "(gtf_import_exact); every transcript id owning a subfeature line and lacking an explicit line gets exactly "
+            "one row, a 'transcript' spanning min start..max end of its subfeature lines on their seqid/strand with "
+            "attributes {transcript_id, gene_id}, retrievable by that id (transcript_extent), likewise genes "
+            "(gene_extent); the relation set is exactly {line->transcript (1), line->gene (2), transcript->gene (1)} "
+            "with no self relation (gtf_relations_exact, relation_queries_exact); the two disable flags suppress exactly "
+            "the corresponding derived rows and nothing else (disable_flags); explicit gene/transcript lines remain the "
+            "only row under their id, unchanged (explicit_lines_single). Correspondence end to end on generated GTF "
+            "forests (shuffled, explicit lines, all flag combinations, custom keys); oracle: min/max per id and the "
+            "relation set from the ids on each line. Two defects repaired (self relations; the '<id>_1' overwrite, "
+            "found by the proof).",
+    "note": "Trusted: Lean kernel + standard axioms; sqlite MIN/MAX, DISTINCT, ORDER BY on text and bare columns of an "
+            "aggregate modelled (validated by the correspondence); the theorems' hypothesis MergeOk.noSuffixed (no id of "
+            "the shape <explicit id>_<n>) is stronger than the repaired code needs.",
+    "technique": "Lean 4 theorems (loop invariants over the two importer passes, refinement to a relation spec) + correspondence",
+    "design_ref": "DESIGN.md §3 C03",
+}
+
 PENDING_REASON = "check not built yet in this round of work (planned: DESIGN.md §3); nothing is claimed for it"
 
 
